@@ -11,7 +11,6 @@ use jj_lib::merge::Merge;
 use jj_lib::merged_tree::MergedTree;
 use jj_lib::repo::Repo as _;
 use jj_lib::repo_path::RepoPath;
-use jj_lib::repo_path::RepoPathBuf;
 use jj_lib::settings::UserSettings;
 use jj_lib::store::Store;
 use pollster::FutureExt as _;
@@ -64,14 +63,7 @@ pub fn content_id(text: &[u8]) -> i64 {
     let Ok(s) = std::str::from_utf8(text) else {
         return 99;
     };
-    for id in 1..=18 {
-        if id <= 9 || id >= 10 {
-            if s == file_content(id) {
-                return id;
-            }
-        }
-    }
-    99
+    (1..=18).find(|&id| s == file_content(id)).unwrap_or(99)
 }
 
 pub struct Env {
@@ -209,11 +201,6 @@ impl Env {
         json!({"hc": tree.has_conflict(), "pv": Value::Object(pv), "cf": cf, "extra": extra,
                "arity": tree.tree_ids().as_slice().len()})
     }
-}
-
-#[allow(dead_code)]
-pub fn root_path() -> RepoPathBuf {
-    RepoPathBuf::root()
 }
 
 pub fn parse_terms(v: &Value) -> Result<Vec<ATree>, String> {
